@@ -11,8 +11,8 @@ ASSUMPTIONS = [
     "default filter: file names are composed from a finite alphabet: each resolved LIB_PATHS entry, its parent, a sibling whose name textually "
     "extends a root ('<root>-extra'), directories outside, 0..2 components, synthetic names ('', '<string>', '<frozen ...>', '<stdin>'); "
     "MONKEYTYPE_TRACE_MODULES unset / empty / 1..2 (quick) or ..3 (thorough) names; oracle = independent string-based path predicate",
-    "outside the claim: paths reached through symlinks (Path.resolve runs for real on non-existent paths, i.e. normalisation only), "
-    "lru_cache staleness when the environment variable changes, enumeration of every installed code object, `monkeytype run` of scripts",
+    "a real symbolic link to the first library root is created under the system temp directory: code reached through it must be treated as "
+    "library code (Path.resolve runs for real); other symlink layouts are outside the claim; so are lru_cache staleness when the environment variable changes, enumeration of every installed code object, `monkeytype run` of scripts",
 ]
 
 
@@ -20,8 +20,8 @@ def run(tier):
     dn = "deffilter_quick" if tier == "quick" else "deffilter_thorough"
     sn = "step_quick" if tier == "quick" else "step_thorough"
     jobs = [
-        Job("harness.c17", "gate", [{}], 60, bounds=dict(admit="bool", with_filter="bool", co_name=["<real>", "trace_types"]),
-            rule="filter verdict x filter present x code name x function", describe=H.describe),
+        Job("harness.c17", "gate", [{}], 60, bounds=dict(verdicts="two independent bools for two code objects sharing file and function name", with_filter="bool", co_name=["<real>", "trace_types"], order="both"),
+            rule="filter verdicts x filter present x code name x function x call order", describe=H.describe),
         Job("harness.c17", "mainmod", [{}], 120, bounds=dict(module_names="2 symbolic strings, length <= 9"),
             rule="string classes decided by the solver (equal to '__main__' or not)", describe=H.describe),
         Job("harness.c17", dn, H.deffilter_shards(dn), 300 if tier == "quick" else 2400, bounds=dict(H.CFG[dn.split('_')[1]]),
